@@ -53,21 +53,57 @@ TRUSTED_EXTRA = ["tools/gen_events.py (reads the precedence/event_type literals 
 KINDS = ["Unplug", "Plugin", "Recompute"]          # rank in the property text: unplug, plug-in, recompute
 KCOQ = {"Unplug": "KUnplug", "Plugin": "KPlugin", "Recompute": "KRecompute"}
 RANK = {k: i for i, k in enumerate(KINDS)}
+# "ties broken by precedence (unplug, then plug-in, then recompute)": the precedence scale on which an
+# instance's customised `precedence` is compared with the class defaults (monitor side; the model takes the
+# defaults from the regenerated Gen/EventParams.v)
+SPEC_PREC = {"Unplug": 0, "Plugin": 10, "Recompute": 20}
+SPEC_TYPE = {"Unplug": "Unplug", "Plugin": "Plugin", "Recompute": "Recompute", "Base": ""}
+CUSTOM_PRECS = [-7, -1, 0, 5, 10, 12, 15, 20, 25]
+CUSTOM_TYPES = ["Maintenance", "", "Plugin "]
+
+
+def _extras(t):
+    """optional trailing elements of an event triple [ts, kind, vid, ...]: a number-type tag (str) and a
+    customisation {"p": precedence set on the instance, "ty": event_type set on the instance}"""
+    dt, custom = None, {}
+    for x in t[3:]:
+        if isinstance(x, dict):
+            custom = x
+        elif isinstance(x, str):
+            dt = x
+    return dt, custom
+
+
+def _want_prec(t):
+    c = _extras(t)[1]
+    return c["p"] if "p" in c else SPEC_PREC[t[1]]
+
+
+def _want_type(t):
+    c = _extras(t)[1]
+    return c["ty"] if "ty" in c else SPEC_TYPE[t[1]]
 BADP = 999983                                       # stands for a precedence the model cannot represent
 
 
 # ---------------------------------------------------------------------------------------------
 # running the real implementation
 # ---------------------------------------------------------------------------------------------
-def _mk_event(ts, kind, vid, dt=None):
+def _mk_event(ts, kind, vid, dt=None, custom=None):
     ts = _conv(ts, dt)
-    from acnportal.acnsim.events import PluginEvent, UnplugEvent, RecomputeEvent
+    from acnportal.acnsim.events import Event, PluginEvent, UnplugEvent, RecomputeEvent
     from acnportal.acnsim.models import EV, Battery
     if kind == "Recompute":
         e = RecomputeEvent(ts)
+    elif kind == "Base":                # the base class; its default precedence is inf, so it is always customised
+        e = Event(ts)
     else:
         ev = EV(ts, ts + 5, 10, "S%d" % (vid % 7), "sess%d" % vid, Battery(50, 0, 7))
         e = PluginEvent(ts, ev) if kind == "Plugin" else UnplugEvent(ts, ev)
+    # the caller customises the public attributes of this instance before queueing it
+    if custom and "p" in custom:
+        e.precedence = custom["p"]
+    if custom and "ty" in custom:
+        e.event_type = custom["ty"]
     e.vid = vid          # extra attribute: kept by the registry serialiser, so identity survives JSON
     return e
 
@@ -148,7 +184,7 @@ class Runner:
         if vid not in objs:
             e = self.pool.get(vid)
             if e is None:
-                e = _mk_event(ts, kind, vid, triple[3] if len(triple) > 3 else None)
+                e = _mk_event(ts, kind, vid, *_extras(triple))
                 self.pool[vid] = e
             objs[vid] = e
             if not twin and self.twin is not None and vid not in self.twin_objs:
@@ -158,7 +194,7 @@ class Runner:
     def _do(self, q, op, twin):
         k = op[0]
         if k == "add":
-            return q.add_event(self._obj(op[1:5], twin))
+            return q.add_event(self._obj(op[1:], twin))
         if k == "addmany":
             evs = [self._obj(t, twin) for t in op[1]]
             if len(op) > 2 and op[2] == "tuple":
@@ -385,6 +421,9 @@ def run_impl(inits, ops):
 # Coq terms
 # ---------------------------------------------------------------------------------------------
 def _item(t):
+    c = _extras(t)[1]
+    if "p" in c:                       # precedence set on the instance: the item carries it
+        return "(%s, (%s, %d%%nat))" % (z(t[0]), z(c["p"]), t[2])
     return "(mk %s %s %d%%nat)" % (z(t[0]), KCOQ[t[1]], t[2])
 
 
@@ -409,7 +448,7 @@ def _arr_raw(arr):
 def op_coq(op):
     k = op[0]
     if k == "add":
-        return "OAdd %s" % _item(op[1:4])
+        return "OAdd %s" % _item(op[1:])
     if k == "addmany":
         return "OAddMany %s" % coq_list([_item(t) for t in op[1]])
     return {"get": "OGet", "len": "OLen", "empty": "OEmpty", "last": "OLast", "json": "OJson",
@@ -481,6 +520,7 @@ class QGen:
         self.rng, self.profile, self.span, self.neg, self.nid = rng, profile, span, neg, nid
         self.dt = dt              # None | "np" | "float" | "mixed": number type the caller uses
         self.others = []          # the generators of the other queues of the scenario
+        self.custom = False       # the caller customises precedence / event_type on a share of the instances
         self.pending = {}
         for t in (init or []):
             self.pending[t[2]] = t
@@ -495,7 +535,16 @@ class QGen:
         self.nid[0] += 1
         ts = lo + rng.randint(0, self.span) - (3 if self.neg and rng.random() < 0.3 else 0)
         d = self.pick_dt()
-        return [ts, rng.choice(KINDS), vid] + ([d] if d else [])
+        kind = rng.choice(KINDS)
+        c = {}
+        if self.custom and rng.random() < 0.4:
+            if rng.random() < 0.8:
+                c["p"] = rng.choice(CUSTOM_PRECS)
+            if rng.random() < 0.4:
+                c["ty"] = rng.choice(CUSTOM_TYPES)
+            if rng.random() < 0.1:
+                kind, c["p"] = "Base", c.get("p", rng.choice(CUSTOM_PRECS))
+        return [ts, kind, vid] + ([d] if d else []) + ([c] if c else [])
 
     def pick_dt(self):
         if self.dt == "mixed":
@@ -505,7 +554,7 @@ class QGen:
     def note(self, op, res):
         pending = self.pending
         if op[0] == "add":
-            pending[op[3]] = op[1:4]
+            pending[op[3]] = op[1:]
         elif op[0] == "addmany":
             for t in op[1]:
                 pending[t[2]] = t
@@ -562,6 +611,7 @@ def gen_one(rng, maxlen, profile=None, nq=None):
     span = rng.choice([1, 3, 8, 40, 1000, 1000, 10**12, 2**65]) if profile != "ties" else rng.choice([1, 2])
     n = rng.randint(1, maxlen) if profile != "tiny" else rng.randint(0, 8)
     dt = rng.choice([None] * 15 + ["np", "np", "float", "mixed", "mixed"])
+    custom = rng.random() < 0.3
     if rng.random() < 0.5:
         n = min(n, max(8, maxlen // 4))
     nid = [0]
@@ -569,6 +619,7 @@ def gen_one(rng, maxlen, profile=None, nq=None):
     inits, gens = [], []
     for _ in range(nq):
         g0 = QGen(rng, profile, span, neg, nid, None, dt)
+        g0.custom = custom
         init = None
         if rng.random() < 0.6:
             init = [g0.fresh() for _ in range(rng.choice([0, 1, 2, 5, 12, 30]))]
@@ -576,6 +627,7 @@ def gen_one(rng, maxlen, profile=None, nq=None):
         gens.append(QGen(rng, profile, span, neg, nid, init, dt))
     for g in gens:
         g.others = [h for h in gens if h is not g]
+        g.custom = custom
     run = Multi(inits)
     ops = []
     qi = 0
@@ -643,6 +695,10 @@ CORPUS = [
     _q0([[2 ** 65, "Unplug", 0]], [["addmany", [[5, "Plugin", 1], [2 ** 65 + 1, "Recompute", 2], [5, "Unplug", 3]]],
                                    ["addmany", [[5, "Recompute", 4]], "tuple"], ["queue"], ["last"], ["cur", 5], ["json"],
                                    ["get"], ["get"], ["get"]]),
+    # precedence / event_type customised on instances of every class (and a base Event); restore, then drain
+    _q0([[3, "Plugin", 0, {"p": 25}], [3, "Recompute", 1], [3, "Unplug", 2, {"p": 12, "ty": "Maintenance"}],
+         [3, "Recompute", 3, {"p": -1, "ty": ""}], [3, "Base", 4, {"p": 15}], [3, "Plugin", 5]],
+        [["json"], ["get"], ["get"], ["json", "buf"], ["get"], ["cur", 3]]),
     # three queues, one of them restored from JSON in between
     ([None, [[5, "Plugin", 0]], None],
      [[0, ["add", 1, "Recompute", 1]], [2, ["add", 1, "Unplug", 2]], [0, ["cur", 1]], [1, ["json"]], [2, ["cur", 1]],
@@ -729,7 +785,7 @@ class _Shadow:
     """the pending multiset of one queue, as the property text describes it"""
 
     def __init__(self, init):
-        self.pend = {}            # vid -> [ts, kind, multiplicity]
+        self.pend = {}            # vid -> [ts, kind, multiplicity, precedence, event_type]
         self.timestep = 0
         for t in (init or []):
             self.add(t)
@@ -738,19 +794,20 @@ class _Shadow:
         if t[2] in self.pend:
             self.pend[t[2]][2] += 1
         else:
-            self.pend[t[2]] = [t[0], t[1], 1]
+            self.pend[t[2]] = [t[0], t[1], 1, _want_prec(t), _want_type(t)]
 
     def key(self, vid):
-        return (self.pend[vid][0], RANK[self.pend[vid][1]])
+        return (self.pend[vid][0], self.pend[vid][3])
 
     def take(self, o, what):
         """o = [timestamp attr, prec, vid, event_type] of a returned event"""
         vid = o[2]
         if vid not in self.pend:
             return "%s returned event %r which is not pending" % (what, o)
-        ts, kind, _ = self.pend[vid]
-        if o[0] != ts or o[3] != kind:
-            return "%s returned event %r but the pending event %d is (%d, %s)" % (what, o, vid, ts, kind)
+        ts, kind, _, prec, ety = self.pend[vid]
+        if o[0] != ts or o[3] != ety or o[1] != prec:
+            return "%s returned event %r (timestamp, precedence, id, event_type) but the pending %s event %d has (%d, %r, %r)" % (
+                what, o, kind, vid, ts, prec, ety)
         return None
 
     def drop(self, vid):
@@ -771,7 +828,7 @@ class _Shadow:
         if r[0] == "exc" or r[0] == "value":
             return "%s: unexpected %r" % (where, r)
         if k == "add":
-            self.add(op[1:4])
+            self.add(op[1:])
         elif k == "addmany":
             for t in op[1]:
                 self.add(t)
@@ -788,7 +845,7 @@ class _Shadow:
             kk = self.key(r[3])
             low = min(self.key(v) for v in pend)
             if kk != low:
-                return "%s: returned key %r (ts, rank) although %r is pending" % (where, kk, low)
+                return "%s: returned key %r (timestamp, precedence) although %r is pending" % (where, kk, low)
             self.drop(r[3])
         elif k == "cur":
             t = op[1]
@@ -805,7 +862,7 @@ class _Shadow:
                 return "%s: returned vids %r, pending with ts<=%d are %r" % (where, got, t, want)
             keys = [self.key(o[2]) for o in r[1]]
             if any(a > b for a, b in zip(keys, keys[1:])):
-                return "%s: returned keys not in (timestamp, unplug<plugin<recompute) order: %r" % (where, keys)
+                return "%s: returned keys not in (timestamp, precedence) order, unplug=0 < plug-in=10 < recompute=20: %r" % (where, keys)
             for o in r[1]:
                 self.drop(o[2])
         elif k == "queue":
@@ -830,14 +887,17 @@ class _Shadow:
                 return "%s: gave %r" % (where, r)
             if r[1] != self.timestep:
                 return "%s: restored _timestep %r, original %r" % (where, r[1], self.timestep)
-            if r[2] != r[3]:
-                return "%s: restored array differs from the serialised one" % where
             got = sorted(a[3] for a in r[2])
             if got != self.vids():
                 return "%s: restored pending set %r, expected %r" % (where, got, self.vids())
             for a in r[2]:
-                if a[3] not in pend or a[0] != pend[a[3]][0] or a[1] != a[0] or a[4] != pend[a[3]][1]:
+                if a[3] not in pend or a[0] != pend[a[3]][0] or a[1] != a[0]:
                     return "%s: restored entry %r does not match pending event" % (where, a)
+                if a[2] != pend[a[3]][3] or a[4] != pend[a[3]][4]:
+                    return "%s: restored event %d has precedence %r and event_type %r, the original had %r and %r" % (
+                        where, a[3], a[2], a[4], pend[a[3]][3], pend[a[3]][4])
+            if r[2] != r[3]:
+                return "%s: restored array differs from the serialised one" % where
         return None
 
 
